@@ -1039,8 +1039,10 @@ func (a *Analysis) CheckC17(rep *Report) {
 }
 
 // plainConstructor: the function returns a fresh allocation and performs no calls.
-func plainConstructor(fn *ssa.Function) bool {
-	if fn.Blocks == nil {
+func plainConstructor(fn *ssa.Function) bool { return plainConstructorDepth(fn, 0) }
+
+func plainConstructorDepth(fn *ssa.Function, depth int) bool {
+	if fn.Blocks == nil || depth > 3 {
 		return false
 	}
 	// what the caller handed in: the parameters, their elements (functional options: `for _, o := range opts { o(p) }`)
@@ -1081,6 +1083,10 @@ func plainConstructor(fn *ssa.Function) bool {
 				if bi, ok := in.Call.Value.(*ssa.Builtin); ok && bi.Name() == "len" && len(in.Call.Args) == 1 && fromParam[in.Call.Args[0]] {
 					continue
 				}
+				// a nested part made by its own plain constructor (`&Request{SubOrder: NewSubOrder()}`)
+				if callee := in.Call.StaticCallee(); callee != nil && len(in.Call.Args) == 0 && plainConstructorDepth(callee, depth+1) {
+					continue
+				}
 				// an option supplied by the caller applied to the new value: what it does to it is the caller's own doing,
 				// like assigning the fields after the constructor returned
 				if in.Call.IsInvoke() || !fromParam[in.Call.Value] {
@@ -1111,8 +1117,15 @@ func boundedByInput(v *Val, conds []Cond) (bool, string) {
 	if inner.Op == "choice" && len(inner.Args) > 0 {
 		// the value of one of several effect-free alternatives: bounded when each of them is
 		all := true
-		for _, alt := range inner.Args {
-			if ok, _ := boundedByInput(alt, conds); !ok {
+		forks, _ := inner.Aux.([]*choiceFork)
+		for i, alt := range inner.Args {
+			// (each alternative under the conditions of the way that produced it: `if count > remaining { return
+			// remaining }; return count` is min(count, remaining) written out)
+			cs := conds
+			if i < len(forks) && forks[i] != nil && len(forks[i].Conds) > 0 {
+				cs = append(append([]Cond(nil), conds...), forks[i].Conds...)
+			}
+			if ok, _ := boundedByInput(alt, cs); !ok {
 				all = false
 			}
 		}
@@ -1320,6 +1333,43 @@ func narrowingLenPrefix(src *Val) (*Val, bool) {
 	return in, true
 }
 
+// unsignedTypeSet: every type in the type parameter's type set is an unsigned integer.
+func unsignedTypeSet(tp *types.TypeParam) bool {
+	var all func(t types.Type, depth int) bool
+	all = func(t types.Type, depth int) bool {
+		if depth > 6 {
+			return false
+		}
+		switch u := t.(type) {
+		case *types.Union:
+			if u.Len() == 0 {
+				return false
+			}
+			for i := 0; i < u.Len(); i++ {
+				if !all(u.Term(i).Type(), depth+1) {
+					return false
+				}
+			}
+			return true
+		case *types.Interface:
+			any := false
+			for i := 0; i < u.NumEmbeddeds(); i++ {
+				if !all(u.EmbeddedType(i), depth+1) {
+					return false
+				}
+				any = true
+			}
+			return any
+		case *types.Named:
+			return all(u.Underlying(), depth+1)
+		case *types.Basic:
+			return u.Info()&types.IsUnsigned != 0
+		}
+		return false
+	}
+	return all(tp.Constraint().Underlying(), 0)
+}
+
 // overflowGuard recognises the accepted guard idioms over value L being narrowed to conv:
 // round trip  int(T(L)) != L   (failing when true)
 // max compare L > maxT  /  uint64(L) > uint64(maxT)  with maxT exactly the maximum of T
@@ -1347,6 +1397,49 @@ func overflowGuard(c Cond, narrowed *Val) (isGuard bool, failing bool) {
 			return true, !c.Taken
 		}
 	case ">", "<", ">=", "<=":
+		// generic body: the largest value of an unsigned type parameter T is ^T(0); L > uint64(^T(0)) is the exact
+		// max comparison for whatever T turns out to be
+		if tp, isTP := narrowed.Type.(*types.TypeParam); isTP && unsignedTypeSet(tp) {
+			isMax := func(x *Val) bool {
+				for x != nil && x.Op == "conv" && len(x.Args) == 1 && x.Type != nil && isIntegerType(x.Type) {
+					x = stripCT(x.Args[0]) // widened for the comparison
+				}
+				if x == nil || x.Op != "unop" || x.Name != "^" || len(x.Args) != 1 {
+					return false
+				}
+				z := stripCT(x.Args[0])
+				if z.Op == "conv" && len(z.Args) == 1 && z.Type != nil && typeStr(z.Type) == typeStr(tp) {
+					z = stripCT(z.Args[0])
+				} else if !(x.Type != nil && typeStr(x.Type) == typeStr(tp)) {
+					return false
+				}
+				n, ok := z.Int64()
+				return ok && n == 0
+			}
+			unw := func(x *Val) *Val {
+				for x.Op == "conv" {
+					x = stripCT(x.Args[0])
+				}
+				return x
+			}
+			if affOf(unw(l)).Equal(affOf(L)) && isMax(r) {
+				switch v.Name {
+				case ">":
+					return true, c.Taken
+				case "<=":
+					return true, !c.Taken
+				}
+			}
+			if affOf(unw(r)).Equal(affOf(L)) && isMax(l) {
+				switch v.Name {
+				case "<":
+					return true, c.Taken
+				case ">=":
+					return true, !c.Taken
+				}
+			}
+			return false, false
+		}
 		bits, uns := intBits2(narrowed.Type)
 		if bits == 0 || bits >= 64 {
 			return false, false
